@@ -10,7 +10,7 @@ from .c01 import box_arg, box_selectors, field_arg, field_selectors
 
 ID = "C15"
 LEVEL = "exploration"
-BUDGET = {"quick": 1000, "thorough": 200000}
+BUDGET = {"quick": 3000, "thorough": 200000}
 TECHNIQUE = "property-based testing with a schedule-owning pool: multiset / ordered equality against the generator's payload"
 RULE = ("Hypothesis-generated 2D/3D plotfiles (any layout, special-float payloads) x field selector (listed forms) "
         "x level x execution order of the per-file read tasks (all n! orders and both eager/lazy modes when the "
